@@ -464,13 +464,37 @@ fn replay(args: &Args, path: &str) {
 }
 
 pub fn run(args: &Args) {
-    if let Some(p) = &args.replay { replay(args, p); return; }
+    if let Some(p) = &args.replay {
+        if replay_kind(p) == "migration_probe" { let mut o = Out::new(&args.out); replay_probe(&mut o, &mut |o| migration_probe(o)); }
+        replay(args, p); return;
+    }
     let mut out = Out::new(&args.out);
     out.rule = "a history = 6..28 calls (Bond/Unbond/Withdraw/donation; NewEpoch/Claim as environment) by 3 users over 2 bonding denoms + 1 foreign denom, \
                 block-time steps from {0, 1ns, period-1, period, period+1, 1s, 1 day}; non-trivial = at least 4 accepted lair calls of at least 3 different kinds; \
                 distinct = by hash of the whole model input".into();
     let mut rng = Rng::new(args.seed);
     corpus(&mut out);
+    migration_probe(&mut out);
     for _ in 0..args.n { gen_history(&mut out, &mut rng); }
     out.finish();
+}
+
+/// bonds of three users over both denoms, unbondings pending (matured and not), a withdrawal: then `migrate` on a copy of the lair's
+/// storage one patch version back (migr.rs): everything the contract reports about bonds, unbondings and totals must be unchanged
+fn migration_probe(out: &mut Out) {
+    let t0 = GENESIS_DEFAULT;
+    let mut x = Exec::new(1_000, DEC_ONE);
+    let mut scratch = Out::new(&format!("{}/scratch_migr", out.dir));
+    for (t, e) in [
+        (t0, Ev::Bond { who: 0, native: true, denom: 0, amount: 10_000, funds: vec![(0, 10_000)] }),
+        (t0 + 1, Ev::Bond { who: 1, native: true, denom: 0, amount: 5_000, funds: vec![(0, 5_000)] }),
+        (t0 + 2, Ev::Bond { who: 2, native: true, denom: 1, amount: 7_000, funds: vec![(1, 7_000)] }),
+        (t0 + 3, Ev::Unbond { who: 0, native: true, denom: 0, amount: 3_000 }),
+        (t0 + 900, Ev::Unbond { who: 1, native: true, denom: 0, amount: 1_000 }),
+        (t0 + 1_500, Ev::Withdraw { who: 0, denom: 0 }),
+        (t0 + 1_600, Ev::Unbond { who: 2, native: true, denom: 1, amount: 2_000 }),
+    ] { x.exec(&mut scratch, t, &e); }
+    let dump = x.w.app.dump_wasm_raw(&x.w.lair);
+    let b = x.w.app.block_info();
+    crate::migr::probe_lair(out, &dump, &U, &[D[0], D[1]], b.time, b.height);
 }
